@@ -376,7 +376,15 @@ func addTime(T map[string]intrinsic) {
 	T["(time.Time).String"] = func(m *Machine, th *Thread, fr *Frame, f FuncV, a []Value) (Value, invStatus) {
 		return done(m.opaqueString("time"))
 	}
-	T["(time.Time).Format"] = T["(time.Time).String"]
+	T["(time.Time).Format"] = func(m *Machine, th *Thread, fr *Frame, f FuncV, a []Value) (Value, invStatus) {
+		// a concrete instant (UTC wall clock) and a concrete layout: the real time package
+		if rt, ok := concreteFlat(a[0].(TimeV)); ok {
+			if layout, ok := m.strConcrete(a[1].(StrV)); ok {
+				return done(m.mkStr(rt.Format(layout)))
+			}
+		}
+		return done(m.opaqueString("time"))
+	}
 	T["time.Unix"] = func(m *Machine, th *Thread, fr *Frame, f FuncV, a []Value) (Value, invStatus) {
 		sec, nsec := a[0].(*Term), a[1].(*Term)
 		ns := m.tt.Bin(OpAdd, m.tt.Bin(OpMul, sec, m.tt.BV(1000000000, 64)), nsec)
